@@ -39,7 +39,13 @@ def kwargs_of(c):
         kw["adaptive_smooth"] = c["smooth"]
     if s == "function":
         coef = c["coef"]
-        kw["sampling_function_supplier"] = lambda x, y: (lambda v: sum(cf * v ** k for k, cf in enumerate(coef)))
+        if c.get("fn_kind") == "const_scalar":      # a valid f(float) -> float that ignores its argument
+            kw["sampling_function_supplier"] = lambda x, y: (lambda v: float(coef[0]))
+        elif c.get("fn_kind") == "scalar_only":     # a function that only accepts scalars
+            import math
+            kw["sampling_function_supplier"] = lambda x, y: (lambda v: sum(cf * math.pow(float(v), k) for k, cf in enumerate(coef)))
+        else:
+            kw["sampling_function_supplier"] = lambda x, y: (lambda v: sum(cf * v ** k for k, cf in enumerate(coef)))
     return kw
 
 
@@ -121,6 +127,9 @@ Definition rfa_match_x (tol : Qc) (m : res (list Qc * list Qc)) (ox : list Qc) (
             c["smooth"] = rng.choice(SMOOTHS)
         if strategy == "function":
             c["coef"] = rng.choice(POLY)
+            c["fn_kind"] = rng.choice(["poly", "const_scalar", "scalar_only"])
+            if c["fn_kind"] == "const_scalar":
+                c["coef"] = [rng.choice([0.0, 2.5, -1.0])]
         if strategy == "cubic" and m < 2:
             c["x"], c["y"] = gens.sorted_x(rng, 3), gens.values(rng, 3)
         c.update(over)
